@@ -1184,6 +1184,22 @@ class StmtMixin(object):
             raise Undecided("is_fresh without old state")
         return st, self.mk_bool(z3.And(self.u.is_R(v.z), self.u.r(v.z) >= old[0].alloc))
 
+    def spec_existed(self, node, st, acc):
+        """existed(r): the object id r (an integer, as bound by forall(lambda r: ...)) was allocated before the old state."""
+        st, v = self.eval(node.args[0], st, acc)
+        old = self.spec_old_state
+        if old is None:
+            raise Undecided("existed() without old state")
+        zi = self.as_int(v) if v.kind == "int" else self.u.i(v.z)
+        return st, self.mk_bool(zi < old[0].alloc)
+
+    def spec_preexisting(self, node, st, acc):
+        """preexisting(x): x is an object that was allocated before the function under verification was entered."""
+        st, v = self.eval(node.args[0], st, acc)
+        v = self.box(st, v)
+        a0 = z3.Int("alloc0")
+        return st, self.mk_bool(z3.And(self.u.is_R(v.z), self.u.r(v.z) > 0, self.u.r(v.z) < a0))
+
     def spec_typeof_is(self, node, st, acc):
         st, v = self.eval(node.args[0], st, acc)
         cname = ast.literal_eval(node.args[1])
